@@ -176,6 +176,29 @@ def run(ctx):
                     bound_ok = True
             chk.ob('U3', 'loop-bounded-by-item-count[%s]' % fname, bound_ok, hc[0].where(), fname,
                    'the loop over the items is not bounded by the count returned by %s' % hc[0]['callee'])
+            # the text handed to the list parser is a COMPLETE private copy of the filter argument: strdup(arg) (or
+            # an allocation of strlen(arg)+1).  A copy into a fixed-size buffer cuts long lists: uids behind the cut
+            # are not seen and the item straddling it becomes a different number.
+            src = decl_of(arg(hc[0], 0))
+            whole, why = False, 'the list parser is not given a variable'
+            if src is not None:
+                decls = {x['id']: x for x in F.local_decls()}
+                x = decls.get(src['id'])
+                if x is not None and ('arrayLen' in x or x.get('vla')):
+                    why = 'the list is copied into the fixed buffer %s[%s]' % (x['name'], x.get('arrayLen', '?'))
+                else:
+                    defs = [strip(d) for d in def_exprs(F, src['id']) if not (strip(d).get('null') or strip(d).get('v') == 0)]
+                    pid0 = F.params[0]['id'] if F.params else None
+                    whole = bool(defs) and all(
+                        d.k == 'CallExpr' and d.get('callee') in ('strdup', '__strdup') and (decl_of(arg(d, 0)) or {}).get('id') == pid0
+                        for d in defs)
+                    why = 'the parsed text is %s' % ', '.join(render(d)[:40] for d in defs) if defs else 'the parsed text has no definition'
+                    if src.get('kind') == 'parm':
+                        whole, why = True, 'the argument itself'
+            chk.ob('U3', 'whole-list-parsed[%s]' % fname, whole, hc[0].where(), fname,
+                   '%s: a uid list longer than the buffer is cut, so uids behind the cut are treated as unlisted and the '
+                   'item at the cut as a different number' % why,
+                   how='the parser works on strdup(<filter argument>)')
     if len(helpers) == 2:
         a, b = helpers['snoopy_filter_only_uid'], helpers['snoopy_filter_exclude_uid']
         chk.ob('U3', 'siblings-share-list-handling', a == b and a[0] is not None, '', '',
